@@ -14,6 +14,8 @@ import (
 	"strings"
 
 	"github.com/samsarahq/thunder/federation"
+	"github.com/samsarahq/thunder/graphql/introspection"
+	"github.com/samsarahq/thunder/graphql/schemabuilder"
 )
 
 func init() { register("C09", runC09) }
@@ -546,11 +548,14 @@ func c09RunImpl(cs c09Case, rename map[string]string) (*c09Schema, error) {
 	in := map[string]map[string]*federation.IntrospectionQueryResult{}
 	for sn, vs := range cs.Services {
 		name := sn
-		if rename != nil {
+		if rename != nil && rename[sn] != "" {
 			name = rename[sn]
 		}
 		in[name] = map[string]*federation.IntrospectionQueryResult{}
 		for vn, s := range vs {
+			if rename != nil && rename[sn+"/"+vn] != "" {
+				vn = rename[sn+"/"+vn]
+			}
 			in[name][vn] = s.toResult()
 		}
 	}
@@ -642,6 +647,44 @@ func c09One(c *Ctx, m *Model, cs c09Case) {
 			rep.Count("renamed")
 		}
 	}
+	// ... nor on how the versions of a service are named
+	for _, sn := range names {
+		vnames := []string{}
+		for vn := range cs.Services[sn] {
+			vnames = append(vnames, vn)
+		}
+		if len(vnames) < 2 {
+			continue
+		}
+		sort.Strings(vnames)
+		perm := c.Rng.Perm(len(vnames))
+		rename := map[string]string{}
+		identity := true
+		for i, vn := range vnames {
+			rename[sn+"/"+vn] = vnames[perm[i]]
+			if perm[i] != i {
+				identity = false
+			}
+		}
+		if identity {
+			continue
+		}
+		impl2, ierr2 := c09RunImpl(cs, rename)
+		same := (ierr == nil) == (ierr2 == nil)
+		if same && ierr == nil {
+			same = Canon(c09EncSchema(impl)) == Canon(c09EncSchema(impl2))
+		}
+		if !same {
+			kf := []string{}
+			if len(vnames) >= 3 && (ierr == nil) != (ierr2 == nil) {
+				// known finding C09-2: a conflict between two versions is only seen when the fold puts them side by side
+				kf = []string{"c09_version_order_three_versions"}
+			}
+			rep.Fail("impl_ne_spec", kf, cs, map[string]interface{}{"what": "outcome depends on how the versions of a service are named", "rename": rename, "err1": fmt.Sprint(ierr), "err2": fmt.Sprint(ierr2)})
+		}
+		rep.Count("versions-renamed")
+		break
+	}
 	// S: bounds (two versions of one service: intersection; two services: union)
 	if ierr == nil {
 		c09Bounds(rep, cs, impl)
@@ -688,6 +731,93 @@ func c09Repro(rep *Report) {
 	_, e1 := c09RunImpl(c09Case{Services: map[string]map[string]*c09Schema{"svc00": {"v": x}, "svc01": {"v": y}, "svc02": {"v": z}}}, nil)
 	_, e2 := c09RunImpl(c09Case{Services: map[string]map[string]*c09Schema{"svc00": {"v": y}, "svc01": {"v": z}, "svc02": {"v": x}}}, nil)
 	rep.Repros["C09-1"] = Repro{Fails: (e1 == nil) != (e2 == nil), Detail: fmt.Sprintf("services [x,y,z]: %v; services [y,z,x]: %v", e1, e2)}
+	// C09-2: three versions of one service: f: S00, no f, f: S01
+	mkf := func(t string) *c09Schema {
+		fields := []c09Field{{Name: "g00", Type: ref("S00", false), Args: []c09Arg{}}}
+		if t != "" {
+			fields = append(fields, c09Field{Name: "f00", Type: ref(t, false), Args: []c09Arg{}})
+		}
+		return &c09Schema{Types: []c09Type{{Name: "S00", Kind: "SCALAR"}, {Name: "S01", Kind: "SCALAR"}, {Name: "O00", Kind: "OBJECT", Fields: fields}}}
+	}
+	old, mid, neu := mkf("S00"), mkf(""), mkf("S01")
+	_, e1 = c09RunImpl(c09Case{Services: map[string]map[string]*c09Schema{"svc00": {"v00": old, "v01": mid, "v02": neu}}}, nil)
+	_, e2 = c09RunImpl(c09Case{Services: map[string]map[string]*c09Schema{"svc00": {"v00": old, "v01": neu, "v02": mid}}}, nil)
+	rep.Repros["C09-2"] = Repro{Fails: (e1 == nil) != (e2 == nil), Detail: fmt.Sprintf("versions [f: S00, no f, f: S01]: %v; versions [f: S00, f: S01, no f]: %v", e1, e2)}
+	// C09-3: union mode keeps the input side of one service: an argument only one of two services knows
+	f, d := kfTry(func() (bool, string) {
+		a := mk([]c09Arg{{Name: "a00", Type: ref("S00", false)}})
+		b := mk([]c09Arg{})
+		merged, err := c09RunImpl(c09Case{Services: map[string]map[string]*c09Schema{"svc00": {"v": a}, "svc01": {"v": b}}}, nil)
+		if err != nil {
+			return false, ""
+		}
+		for _, t := range merged.Types {
+			for _, fl := range t.Fields {
+				if fl.Name == "f00" && len(fl.Args) == 1 {
+					return true, "field f00 is served by svc00 (f00(a00)) and svc01 (f00()); the merged schema advertises f00(a00), which svc01 refuses with 'unexpected args'"
+				}
+			}
+		}
+		return false, ""
+	})
+	rep.Repros["C09-3"] = Repro{Fails: f, Detail: d}
+	// C09-4 (fixed): every name of an enum value is introspected, the same ones in every build
+	f, d = kfTry(func() (bool, string) {
+		seen := map[string]bool{}
+		for i := 0; i < 12; i++ {
+			sb := schemabuilder.NewSchema()
+			type c09Color int64
+			sb.Enum(c09Color(0), map[string]c09Color{"RED": 1, "CRIMSON": 1, "BLUE": 2, "NAVY": 2, "AZURE": 2})
+			sb.Query().FieldFunc("paint", func(args struct{ C c09Color }) c09Color { return args.C })
+			sb.Mutation()
+			b, err := introspection.RunIntrospectionQuery(introspection.BareIntrospectionSchema(sb.MustBuild()))
+			if err != nil {
+				return true, err.Error()
+			}
+			var w struct {
+				Schema c09Schema `json:"__schema"`
+			}
+			if err := json.Unmarshal(b, &w); err != nil {
+				return true, err.Error()
+			}
+			for _, t := range w.Schema.Types {
+				if t.Kind == "ENUM" && t.Name == "c09Color" {
+					names := []string{}
+					for _, v := range t.EnumValues {
+						names = append(names, v.Name)
+					}
+					seen[strings.Join(names, ",")] = true
+				}
+			}
+		}
+		if len(seen) != 1 || !seen["AZURE,BLUE,CRIMSON,NAVY,RED"] {
+			return true, fmt.Sprintf("enum with two names for 1 and three for 2 is introspected as %v in 12 builds", seen)
+		}
+		return false, ""
+	})
+	rep.Repros["C09-4"] = Repro{Fails: f, Detail: d}
+	// C09-5 (fixed): two argument struct types of one name
+	f, d = kfTry(func() (bool, string) {
+		sb := schemabuilder.NewSchema()
+		{
+			type Filter struct{ A int64 }
+			sb.Query().FieldFunc("fa", func(args struct{ In Filter }) int64 { return 1 })
+		}
+		{
+			type Filter struct{ B *string }
+			sb.Query().FieldFunc("fb", func(args struct{ In Filter }) int64 { return 1 })
+		}
+		sb.Mutation()
+		var berr error
+		if p := safely(func() { _, berr = sb.Build() }); p != nil {
+			berr = fmt.Errorf("%v", p)
+		}
+		if berr == nil {
+			return true, "two different argument structs named Filter are both advertised as Filter_InputObject"
+		}
+		return false, ""
+	})
+	rep.Repros["C09-5"] = Repro{Fails: f, Detail: d}
 }
 
 func c09TypeMap(s *c09Schema) map[string]*c09Type {
